@@ -55,6 +55,12 @@ func (p *Parser) ParseRecoverOperation(request []byte, batch bool) (*model.Opera
 		if schema.Delta.UpdateCommitment == signedData.RecoveryCommitment {
 			return nil, errors.New("recovery and update commitments cannot be equal, re-using public keys is not allowed")
 		}
+
+		// the revealed recovery key must not come back as the next update key either
+		err = p.validateCommitment(signedData.RecoveryKey, schema.Delta.UpdateCommitment)
+		if err != nil {
+			return nil, fmt.Errorf("calculate current commitment: %s", err.Error())
+		}
 	}
 
 	err = hashing.IsValidModelMultihash(signedData.RecoveryKey, schema.RevealValue)
